@@ -95,7 +95,7 @@ def _topologies(repo):
     # chains of up to 3 adapters between every source/sink kind
     for src_pull, sink in itertools.product((False, True), ("Input", "CallbackInput")):
         for L in range(0, 3):
-            for chain in itertools.product((PASS, BUF, DFIX), repeat=L):
+            for chain in itertools.product((PASS, BUF, DFIX, BRK), repeat=L):
                 t, a, b = base()
                 o = t.output(a, pull=src_pull)
                 t.link(o, list(chain), b, sink=sink)
@@ -174,6 +174,27 @@ def _topologies(repo):
         t.link(oa, [], b, "in1")
         t.link(ox, [PASS], b, "in2")
         out.append((f"missing-upstream:{'same' if same_names else 'distinct'}-names", t, [a, b]))
+    # a consumer that is not part of the composition hangs on a fan-out: next to / behind adapter branches, in both link orders
+    for name, first_chain, second_chain, missing_first in (
+        ("adapter-branch-then-direct", [PASS], [], False), ("direct-then-adapter-branch", [], [PASS], False),
+        ("adapter-branch-then-direct:missing-first", [PASS], [], True), ("two-adapter-branches", [PASS], [BUF], False),
+        ("two-adapter-branches:missing-first", [BUF], [PASS], True),
+    ):
+        t = Topo(repo)
+        a, b, x = t.comp("A"), t.comp("B"), t.comp("X")
+        o = t.output(a, "out")
+        t.link(o, first_chain, x if missing_first else b, "in")
+        t.link(o, second_chain, b if missing_first else x, "in")
+        out.append((f"missing-downstream:fan:{name}", t, [a, b]))
+    # the same behind a shared adapter
+    for missing_first in (False, True):
+        t = Topo(repo)
+        a, b, x = t.comp("A"), t.comp("B"), t.comp("X")
+        o = t.output(a, "out")
+        shared = t.link(o, [PASS], None)
+        t.link(o, shared + [PASS], x if missing_first else b, "in")
+        t.link(o, shared, b if missing_first else x, "in")
+        out.append((f"missing-downstream:fan-at-adapter:{'missing-first' if missing_first else 'missing-second'}", t, [a, b]))
     # everything registered with identical slot names (must pass)
     t = Topo(repo)
     a, b, c = t.comp("A"), t.comp("B"), t.comp("C")
